@@ -9,6 +9,7 @@ import (
 	"os/exec"
 	"reflect"
 	"strings"
+	"sync"
 	"testing"
 
 	"github.com/cloudwego/frugal"
@@ -108,9 +109,7 @@ func runLegacy(ops []legacyOp, b *core.Bound, src reflect.Value) *Failure {
 		case "stats":
 			var st fdebug.Stats
 			f = safely("debug.GetStats", func() { st = fdebug.GetStats() })
-			if f == nil && st != (fdebug.Stats{}) {
-				return failf("stats-nonzero", "debug.GetStats() = %+v", st)
-			}
+			_ = st // what the statistics say is not part of the property; only that asking is harmless
 		case "pretouch":
 			var arg interface{}
 			switch op.What {
@@ -339,6 +338,36 @@ func runC17(w *worker) func(c c17Case) *Failure {
 						w.label("compared-with-control-process:odd-bool-byte")
 					}
 				}
+			}
+		}
+		// ... and under concurrent use: after the legacy calls of this case (and of every earlier case of
+		// this process) four goroutines repeat the codec calls at the same time; each must see the
+		// sequential outcome
+		if hs := sha256.Sum256(append([]byte(c.S.Sig()), c.Msg...)); hs[1]%2 == 0 {
+			want := c17Codec(c)
+			if want.Fail == "" {
+				var wg sync.WaitGroup
+				var mu sync.Mutex
+				var bad *c17Outcome
+				for g := 0; g < 4; g++ {
+					wg.Add(1)
+					go func() {
+						defer wg.Done()
+						for k := 0; k < 8; k++ {
+							if got := c17Codec(c); got != want {
+								mu.Lock()
+								bad = &got
+								mu.Unlock()
+								return
+							}
+						}
+					}()
+				}
+				wg.Wait()
+				if bad != nil {
+					return failf("differs-under-concurrency", "under %s, after legacy calls, concurrent calls on private values and buffers return %+v, the same calls made alone %+v", envLabel, *bad, want)
+				}
+				w.label("repeated-concurrently")
 			}
 		}
 		if c.Cluster != nil && !control && c13NextCluster < len(invClusters) {
